@@ -80,7 +80,7 @@ Definition ex_sys : sys :=
 Definition ex_iface : iface :=
   mkIface 1%N false true false (198 * sec) (600 * sec) false true 0 0 64%N (1800 * sec) false Medium
     [PPrefix true 0%N 64%N true true (86400 * sec) (14400 * sec) false;
-     PPrefix false 42540766411282592875350729025363378176%N 64%N true false (100 * sec) (50 * sec) true;   (* 2001:db8:1::/64 *)
+     PPrefix false 42540766411282592875350729025363378176%N 64%N true false (100 * sec) (50 * sec) true;   (* 2001:db8:0:1::/64 *)
      PRoute true 0%N 0%N High (86400 * sec) false;
      PRDNSS true (1800 * sec) [42540766411282592856903984951653826643%N];
      PDNSSL (1800 * sec) [65547%N];
